@@ -26,11 +26,14 @@ type rowDef struct {
 }
 
 type kase struct {
-	slot int // worker announcing this case to the progress watchdog (not part of the case)
+	slot  int      // worker announcing this case to the progress watchdog (not part of the case)
 	Kind  string   `json:"kind"` // lseq lqseq aseq aqseq multi mqulti set
 	Alpha string   `json:"alpha"`
 	Rows  []rowDef `json:"rows"` // alignment: rows are equally long, offsets ignored
 	Ops   []string `json:"ops"`
+	// Emptied (linear kinds): the sequence held two letters and was cut back to length zero, so it is
+	// empty but owns storage (what Truncate(s, s, k, k) or a reused template leaves)
+	Emptied bool `json:"emptied,omitempty"`
 }
 
 var alphas = map[string]alphabet.Alphabet{
@@ -101,7 +104,7 @@ func snap(o object) snapshot {
 		s := snapshot{Start: v.Start(), End: v.End(), Strand: int(v.Strand), HasStrand: true}
 		for i := 0; i < v.Rows(); i++ {
 			r := v.Row(i)
-			rs := rowSnap{Name: r.Name(), Start: r.Start(), End: r.End()}
+			rs := rowSnap{Name: r.Name(), Start: r.Start(), End: r.End(), Strand: int(r.CloneAnnotation().Strand)}
 			for p := v.Start(); p < v.End(); p++ {
 				rs.Cells = append(rs.Cells, r.At(p))
 			}
@@ -112,7 +115,7 @@ func snap(o object) snapshot {
 		s := snapshot{Start: v.Start(), End: v.End(), Strand: int(v.Strand), HasStrand: true}
 		for i := 0; i < v.Rows(); i++ {
 			r := v.Row(i)
-			rs := rowSnap{Name: r.Name(), Start: r.Start(), End: r.End()}
+			rs := rowSnap{Name: r.Name(), Start: r.Start(), End: r.End(), Strand: int(r.CloneAnnotation().Strand)}
 			for p := v.Start(); p < v.End(); p++ {
 				rs.Cells = append(rs.Cells, r.At(p))
 			}
@@ -158,8 +161,18 @@ func build(k kase) object {
 	}
 	switch k.Kind {
 	case "lseq":
+		if k.Emptied {
+			s := mkLin(0, rowDef{k.Rows[0].Off, "ac"}, false).(*linear.Seq)
+			s.Seq = s.Seq[:0]
+			return object{k.Kind, s}
+		}
 		return object{k.Kind, mkLin(0, k.Rows[0], false)}
 	case "lqseq":
+		if k.Emptied {
+			s := mkLin(0, rowDef{k.Rows[0].Off, "ac"}, true).(*linear.QSeq)
+			s.Seq = s.Seq[:0]
+			return object{k.Kind, s}
+		}
 		return object{k.Kind, mkLin(0, k.Rows[0], true)}
 	case "aseq", "aqseq":
 		n := len(k.Rows[0].Letters)
@@ -263,8 +276,29 @@ func rows(o object) int {
 }
 
 // apply performs op on o; applicable=false when the operation does not exist for this kind/state.
-func apply(o object, op string) (applicable bool) {
+func apply(o object, op string, step int) (applicable bool) {
+	ap := alphabet.Letter("cgat"[step%4]) // what Append appends depends on when it is called
 	switch op {
+	case "R0", "RL", "V0":
+		// the operation on ONE row, through the row view
+		if _, ok := o.v.(seq.Rower); !ok {
+			return false
+		}
+		ri := 0
+		if op == "RL" {
+			if ri = rows(o) - 1; ri < 1 {
+				return false
+			}
+		}
+		r := rowOf(o, ri)
+		if r == nil {
+			return false
+		}
+		if op == "V0" {
+			r.(interface{ Reverse() }).Reverse()
+		} else {
+			r.(interface{ RevComp() }).RevComp()
+		}
 	case "RC":
 		o.v.(interface{ RevComp() }).RevComp()
 	case "RV":
@@ -311,21 +345,21 @@ func apply(o object, op string) (applicable bool) {
 	case "AP":
 		switch v := o.v.(type) {
 		case *linear.Seq:
-			v.AppendLetters('c')
+			v.AppendLetters(ap)
 		case *linear.QSeq:
-			v.AppendQLetters(alphabet.QLetter{L: 'c', Q: 30})
+			v.AppendQLetters(alphabet.QLetter{L: ap, Q: 30})
 		case *multi.Multi:
 			if v.Rows() == 0 {
 				return false
 			}
-			v.Append(0, alphabet.QLetter{L: 'c', Q: 30})
+			v.Append(0, alphabet.QLetter{L: ap, Q: 30})
 		case *alignment.Seq:
 			if v.Rows() == 0 {
 				return false
 			}
 			col := make([]alphabet.QLetter, v.Rows())
 			for i := range col {
-				col[i] = alphabet.QLetter{L: 'c', Q: 30}
+				col[i] = alphabet.QLetter{L: ap, Q: 30}
 			}
 			v.AppendColumns(col)
 		case *alignment.QSeq:
@@ -334,7 +368,7 @@ func apply(o object, op string) (applicable bool) {
 			}
 			col := make([]alphabet.QLetter, v.Rows())
 			for i := range col {
-				col[i] = alphabet.QLetter{L: 'c', Q: 30}
+				col[i] = alphabet.QLetter{L: ap, Q: 30}
 			}
 			v.AppendColumns(col)
 		default:
@@ -402,6 +436,49 @@ func revcompRelation(k kase, s0, s1 snapshot) string {
 	return ""
 }
 
+// rowRelation checks that S1 is S0 with row ri reverse-complemented (or reversed) in place: its
+// letters reversed (and complemented), qualities travelling, strand negated by RevComp, its
+// coordinates and every other row as they were.
+func rowRelation(k kase, s0, s1 snapshot, ri int, rc bool) string {
+	a := alphas[k.Alpha]
+	if len(s0.Rows) != len(s1.Rows) {
+		return "row count changed"
+	}
+	if s1.Start != s0.Start || s1.End != s0.End {
+		return fmt.Sprintf("span [%d,%d) -> [%d,%d)", s0.Start, s0.End, s1.Start, s1.End)
+	}
+	for i, r0 := range s0.Rows {
+		r1 := s1.Rows[i]
+		if i != ri {
+			if fmt.Sprint(r0) != fmt.Sprint(r1) {
+				return fmt.Sprintf("row %d changed although the operation was on row %d", i, ri)
+			}
+			continue
+		}
+		if len(r0.Cells) != len(r1.Cells) || r0.Start != r1.Start || r0.End != r1.End {
+			return fmt.Sprintf("row %d [%d,%d) became [%d,%d) with %d letters", i, r0.Start, r0.End, r1.Start, r1.End, len(r1.Cells))
+		}
+		n := len(r0.Cells)
+		for j := range r0.Cells {
+			w := r0.Cells[n-1-j]
+			wl := w.L
+			if rc {
+				wl = comp(a, w.L)
+			}
+			if r1.Cells[j].L != wl {
+				return fmt.Sprintf("position %d holds %q, want %q", j, byte(r1.Cells[j].L), byte(wl))
+			}
+			if r1.Cells[j].Q != w.Q {
+				return fmt.Sprintf("position %d has quality %d, want %d (qualities travel with letters)", j, r1.Cells[j].Q, w.Q)
+			}
+		}
+		if rc && r1.Strand != -r0.Strand {
+			return fmt.Sprintf("row strand %d -> %d, want negation", r0.Strand, r1.Strand)
+		}
+	}
+	return ""
+}
+
 func reversedLetters(s0, s1 snapshot) string {
 	if len(s0.Rows) != len(s1.Rows) {
 		return "row count changed"
@@ -460,7 +537,23 @@ func play(c *enum.Ctx, k kase) (key string, steps int, ok bool) {
 			hist = append(hist, snap(cur))
 			continue
 		}
-		if c.Guard(k.Kind+"/"+op+"-panic", k, func() { applicable = apply(cur, op) }) {
+		if op == "SW" {
+			// go on with the copy that was put aside last; the one in hand is put aside instead
+			if len(frz) == 0 {
+				return "", steps, false
+			}
+			f := &frz[len(frz)-1]
+			cur, f.o = f.o, cur
+			f.s = hist[len(hist)-1].String()
+			if f.what == "original" {
+				f.what = "clone"
+			} else {
+				f.what = "original"
+			}
+			hist = append(hist, snap(cur))
+			continue
+		}
+		if c.Guard(k.Kind+"/"+op+"-panic", k, func() { applicable = apply(cur, op, i) }) {
 			return "", steps, false
 		}
 		if !applicable {
@@ -472,6 +565,19 @@ func play(c *enum.Ctx, k kase) (key string, steps int, ok bool) {
 		}
 		s0 := hist[len(hist)-1]
 		switch op {
+		case "R0", "RL", "V0":
+			ri := 0
+			if op == "RL" {
+				ri = len(s0.Rows) - 1
+			}
+			if msg := rowRelation(k, s0, s1, ri, op != "V0"); msg != "" {
+				what := "RevComp"
+				if op == "V0" {
+					what = "Reverse"
+				}
+				fail("row-"+strings.ToLower(what), "step %d %s of row %d of %s gave %s: %s", i, what, ri, s0, s1, msg)
+				return "", steps, false
+			}
 		case "RC":
 			if msg := revcompRelation(k, s0, s1); msg != "" {
 				fail("revcomp", "step %d RevComp of %s gave %s: %s", i, s0, s1, msg)
@@ -514,7 +620,7 @@ func play(c *enum.Ctx, k kase) (key string, steps int, ok bool) {
 	return key, steps, true
 }
 
-var opAlphabet = []string{"RC", "RV", "CL", "CK", "S0", "SL", "OF", "DL", "AP"}
+var opAlphabet = []string{"RC", "RV", "CL", "CK", "S0", "SL", "OF", "DL", "AP", "SW", "R0", "RL", "V0"}
 
 func search(c *enum.Ctx, base kase, depth int, states, trans, traces *atomic.Int64, nt enum.NontrivialSet) {
 	seen := map[string]bool{}
@@ -555,7 +661,7 @@ func search(c *enum.Ctx, base kase, depth int, states, trans, traces *atomic.Int
 }
 
 func run(c *enum.Ctx) {
-	c.Rule("initial objects: linear.Seq/QSeq for every letter string of length 0..3 (algebra-only for 4..5) over paired letters {a,c,G,n,-} (and RNA/redundant alphabets on fixed words), alignment.Seq/QSeq grids 1..3 rows x 0..4 columns, multi.Multi with every layout of 1..3 rows (offsets 0..2, lengths 1..3; plain and quality rows), multi.Set; then breadth-first search over operation sequences of depth <=3 (thorough 4; linear 4/5) over {RevComp, Reverse, Clone-and-continue-on-copy, Clone-and-keep, Set first, Set last, SetOffset, Delete row, Append}; after every operation the object's snapshot (row names, coordinates, strands, letters, qualities) is related to the previous one and every retained clone/original must be unchanged; states de-duplicated on the snapshot of the object plus retained copies (first two levels unmerged); non-trivial = every applicable operation sequence")
+	c.Rule("initial objects: linear.Seq/QSeq for every letter string of length 0..3 (algebra-only for 4..5) over paired letters {a,c,G,n,-} (and RNA/redundant alphabets on fixed words), alignment.Seq/QSeq grids 1..3 rows x 0..4 columns, multi.Multi with every layout of 1..3 rows (offsets 0..2, lengths 1..3; plain and quality rows), multi.Set; then breadth-first search over operation sequences of depth <=3 (thorough 4; linear 4/5) over {RevComp, Reverse, Clone-and-continue-on-copy, Clone-and-keep, Set first, Set last, SetOffset, Delete row, Append (the letter depends on the step), go-on-with-the-other-copy, RevComp of the first / last row through its row view, Reverse of the first row}; linear sequences also start emptied (length 0 over storage of two letters); after every operation the object's snapshot (row names, coordinates, strands, letters, qualities) is related to the previous one and every retained clone/original must be unchanged; states de-duplicated on the snapshot of the object plus retained copies (first two levels unmerged); non-trivial = every applicable operation sequence")
 	c.Assume("column-stored alignments are used at offset 0 (their column accessors take raw indices)", "single Reverse is checked against its documented meaning (letters reversed); Multi row coordinates after Reverse are not constrained")
 	depthLin, depthOther := 4, 3
 	if !c.Quick {
@@ -580,6 +686,11 @@ func run(c *enum.Ctx) {
 			}
 		}
 	})
+	for _, kind := range []string{"lseq", "lqseq"} {
+		for _, off := range []int{0, 2} {
+			jobs = append(jobs, job{kase{Kind: kind, Alpha: "DNA", Rows: []rowDef{{off, ""}}, Emptied: true}, depthLin})
+		}
+	}
 	for name, w := range map[string]string{"DNAgapped": "acgt-", "DNAredundant": "acmgrsvtwyhkdbn-", "RNA": "acgun", "RNAgapped": "-acgu", "RNAredundant": "acmgrsvuwyhkdbn"} {
 		for _, kind := range []string{"lseq", "lqseq"} {
 			for n := 0; n <= len(w); n++ {
